@@ -5,4 +5,8 @@ CHECKS = {
    text="TLC checks exactness (every well-formed chain resolves to exactly its sectors, decoded links acyclic) as invariants over ALL raw word tables of N entries (AKAI N<=4 quick, N<=6 thorough; Roland 3-4 usable heads) and termination of the three table-walking loops as a liveness property of a step-wise specification; every enumerated table is then replayed into the real decoders, get_path and FileStream and compared with the specification's prediction for every start sector, also embedded (shifted and packed) into tables of the real sizes 11386 / 65536.",
    note="Trusted: the TLA+ transcription's definition of 'well-formed chain' matches the property text; TLC; the watchdog (2 s per call) as the observation of non-termination. Real-size coverage is by embedding small tables, not by enumeration.",
    technique="TLC exhaustive model checking of AllocTable.tla / liveness of AllocWalk.tla + replay of every enumerated table into the implementation"),
+ "C08": dict(
+   text="TLC checks ReadReturnsLogicalSlice, PosAdvancesByLen, ReadAllReturnsRest, SeekClamps, TellIsPosition, PosInRange (and the truncated-file variant) on the COMPLETE state graph - every seek/read/tell/readall history of any length - of 27 tiny view configurations (offset window, sector stream, sector chain, scaled raw-sector view, reversed view, and the nestings the tool builds, up to depth 4); behaviours (exhaustive depth 2, simulated depth 8-40, medium configurations with reads spanning 1-3 sector boundaries) are replayed call by call into the real classes comparing bytes, positions, return values and error/no-error.",
+   note="Trusted: Logical(v), the declarative meaning of a view in Streams.tla; TLC. Geometry is scaled (sector 2-16 bytes); the real 8192/9216/2048 sizes are covered end-to-end by C01/C02/C09. Assumes non-empty, in-range, aligned configurations as the property states.",
+   technique="TLC exhaustive model checking of Streams.tla (unbounded history) + replay of TLC-generated behaviours into the implementation"),
 }
